@@ -177,7 +177,7 @@ def run_case(case):
             fl_th.append(8 * eps * max(np.abs(Wv).max(), np.abs(th).max()))
             fl_dv.append(8 * eps * max(np.abs(Fv).max(), np.abs(dv).max()))
         T = tt[-1] - tt[0]
-        adm.append(max(sig.wmax(tt[-1]), sig.freq) * h * 1.5 <= (0.3 if kind == 'linear' else 0.12))
+        adm.append(max(sig.wmax(tt[-1]), sig.freq) * h * max(1.5, float(np.diff(base).max())) <= (0.3 if kind == 'linear' else 0.12))
     out.extend(PENDING)
     eth, edv, fl_th, fl_dv, adm = map(np.array, (eth, edv, fl_th, fl_dv, adm))
     edv2 = np.array(edv2) if kind == 'linear' else edv
@@ -191,6 +191,15 @@ def run_case(case):
             # error already at the oracle floor on the asymptotic rungs: held trivially only if it is small everywhere there
             bump('order_at_floor')
             if (err[adm] > 1e4 * fl[adm]).any():
+                # a high-order case that reaches the floor after one or two admissible rungs (seen in a thorough run: 1e-10, 2.6e-12, then floor):
+                # the usable admissible rungs plus their coarser neighbours can CLEAR the case (order >= need), never condemn it
+                above = np.nonzero(err > 100 * fl)[0]
+                cand = above[-3:] if len(above) >= 2 else above
+                if len(cand) >= 2 and (np.diff(cand) == 1).all():
+                    sl2 = float(np.polyfit(np.log(HS[cand]), np.log(err[cand]), 1)[0])
+                    if sl2 >= need:
+                        bump('order_cleared_with_coarser_rungs')
+                        continue
                 inconclusive.append(f'{name}: fewer than 3 usable rungs: err={err.tolist()}')
             continue
         bump('order_fits')
